@@ -11,7 +11,7 @@ STUBS = ["numpy.linalg.inv closed form (rank 1) / uninterpreted with contract (r
 ASSUMPTIONS = ["UBM variances > 0, counts >= 0, total frame count of the probe >= 1", "the nested list-of-templates form of `data` is not part of the property (it raises inside estimate_x before any pooling) and is not claimed"]
 EXHAUSTIVE = ["ISV and JFA", "probe of 1, 2, 3 statistics", "every array-level entry point against its statistics-level counterpart", "scoring the same probe list twice", "scoring after U was replaced (setter, update_U)"]
 OUTSIDE = ["ranks > 2", "rounding"]
-SIZES = {"quick": [(2, 1, 1, 1), (2, 1, 2, 2)], "thorough": [(2, 1, 1, 1), (2, 1, 2, 2), (2, 2, 2, 1), (1, 3, 2, 2)]}
+SIZES = {"quick": [(2, 1, 1, 1), (2, 1, 2, 2), (2, 2, 1, 1)], "thorough": [(2, 1, 1, 1), (2, 1, 2, 2), (2, 2, 2, 1), (1, 3, 2, 2)]}
 
 
 def bounds(tier):
@@ -37,8 +37,13 @@ def o_score(B, M, sess, y, z):
     return sc / T, x, Ux
 
 
-def sc_score(B, kind, C, D, rU, rV, S, twice=False, history=None):
+def sc_score(B, kind, C, D, rU, rV, S, twice=False, history=None, layout="C"):
     m, M = fa.make_fa(B, kind, C, D, rU, rV)
+    if layout == "F":
+        # the UBM's arrays as (transposed) views: same values, another memory layout
+        ubm = M["ubm"]
+        ubm.means = B.np.array(B.np.transpose(ubm.means)).T
+        ubm.variances = B.np.array(B.np.transpose(ubm.variances)).T
     X, sess = [], []
     for h in range(S):
         s, O = fa.make_stats(B, C, D, "p%d" % h)
@@ -123,6 +128,8 @@ def sc_arrays(B, kind, C, D, rU, rV, n_arrays):
 def job_score(P, kind, C, D, rU, rV):
     for S in (1, 2, 3):
         P.run("score-S%d" % S, sc_score, dict(kind=kind, C=C, D=D, rU=rU, rV=rV, S=S, twice=(S == 2)), linalg=_la(rU), validate=1)
+    if D > 1:
+        P.run("score-noncontiguous-ubm", sc_score, dict(kind=kind, C=C, D=D, rU=rU, rV=rV, S=2, layout="F"), linalg=_la(rU), validate=1)
     for hist in ("setter", "update_U"):
         if hist == "update_U" and C * D * rU > 4:
             continue  # U = A2 inv(A1) inside the posterior precision exceeds the normal-form budget
